@@ -250,6 +250,8 @@ def reader_applies_every_ack(chk, prog):
         rows = db.t['Delivery']
         for r in rows:
             ex.assume(And(r.isnull('completed_at'), ex.eq(r.v['subscription_id'], db.t['Subscription'][0].v['id'])))
+        s0 = db.t['Subscription'][0]
+        ex.assume(And(s0.isnull('deleted_at'), s0.isnull('max_delivery_attempts'), s0.isnull('filter'), Not(s0.v['ordered_delivery'])))
         ids = [r.v['id'] for r in rows]
         pend = MapObj()
         npend = ex.choose(3)          # none, the first, or both of the ids were sent on this stream
@@ -290,19 +292,56 @@ def reader_applies_every_ack(chk, prog):
             raise PathAbort('reader failed')
         nows = stdlib.clock(ex)['nows'][k0:]
         d = lambda m: {'sent on this stream': npend, 'request': 'ack' if acked else 'nack'}
+
+        def rp(m, desc):
+            # the real MessageStreamer.Go against a scripted connection: deliveries "sent here" are due (the stream sends them first),
+            # the others are leased elsewhere (redelivery deadline one hour ahead); then the ack / nack request for all of them
+            from gosym import replay
+            base = 2 * 10**18
+            rws = replay.rows_from_model(m, db.schema, pre)
+            FAR = str(base + 3600 * 10**9)
+            for i, rw in enumerate(rws['Delivery']):
+                rw['attempt_at'] = str(base - 10**9) if i < npend else FAR
+                rw['expires_at'] = str(base + 7200 * 10**9)
+                rw['completed_at'] = None
+                rw['not_before_id'] = None
+            for rw in rws['Subscription']:
+                rw['expires_at'] = str(base + 7200 * 10**9)
+                rw['push_endpoint'] = None
+            idl = [rw['id'] for rw in rws['Delivery']]
+            scn = {'base_now': str(base), 'rows': rws,
+                   'ops': [{'op': 'stream', 'subscription_id': rws['Subscription'][0]['id'], 'flow': {'max_messages': 10, 'max_bytes': 10**6}, 'duration_ms': 1500,
+                            'requests': [{('ack' if acked else 'nack'): idl, 'after_sent': npend}]}]}
+            out = replay.run_scenarios([scn])[0]
+            path = replay.save_scenario(chk.prop, 'stream-%s-%d-sent-here' % ('ack' if acked else 'nack', npend), scn, desc)
+            if 'error' in out:
+                raise RuntimeError(out['error'][-400:])
+            if out['results'][0].get('requests_delivered') != 1:
+                return False, path
+            post = {x['id']: x for x in out['post'].get('Delivery') or []}
+            bad = False
+            for i, did in enumerate(idl):
+                x = post.get(did)
+                if x is None:
+                    continue
+                if acked:
+                    bad = bad or x.get('completed_at') is None
+                elif i >= npend:
+                    bad = bad or (x.get('completed_at') is None and str(x.get('attempt_at')) == FAR)
+            return bad, path
         for i, r0 in enumerate(pre['Delivery']):
             q = db.t['Delivery'][i]
             if acked:
-                ob.verify(ex, 'stream-ack-is-recorded[%s]' % ('sent here' if i < npend else 'sent elsewhere'), Not(q.isnull('completed_at')), d)
+                ob.verify(ex, 'stream-ack-is-recorded[%s]' % ('sent here' if i < npend else 'sent elsewhere'), Not(q.isnull('completed_at')), d, replay=rp)
             else:
                 # a nack of a live delivery whose redelivery deadline has passed is rescheduled from the time of the call
                 # (or the delivery is dead-lettered, i.e. completed)
                 lbl = 'stream-nack-is-applied[%s]' % ('sent here' if i < npend else 'sent elsewhere')
                 if not nows:        # the nack action reads the clock first: no reading = it never ran
-                    ob.verify(ex, lbl, False, d)
+                    ob.verify(ex, lbl, False, d, replay=rp)
                     continue
                 live_overdue = And(r0.v['attempt_at'] < nows[0], r0.v['expires_at'] > nows[-1])
-                ob.verify(ex, lbl, Implies(live_overdue, Or(Not(q.isnull('completed_at')), q.v['attempt_at'] >= nows[0])), d)
+                ob.verify(ex, lbl, Implies(live_overdue, Or(Not(q.isnull('completed_at')), q.v['attempt_at'] >= nows[0])), d, replay=rp)
     chk.run('reader:every-stream-ack-and-nack-reaches-the-database', prog, harness,
             bounds={'deliveries': 2, 'sent on this stream': '0..2 of them', 'request': 'acks or nacks for both'}, setup=world.setup, max_paths=50000)
 
